@@ -390,9 +390,31 @@ func fnCases(rng *hlib.Rand, n int) []*kase {
 		}
 		k.ops = append(k.ops, opEncBit(p, low, width, uint8(rng.Uint64()), uint64(rng.Intn(4)), uint32(rng.Intn(2))))
 	}
+	// the normalisation threshold hit exactly: width' = 2^24 - 1, 2^24, 2^24 + 1 after a 0 bit and after a 1 bit
+	for _, pp := range []uint32{31, 32, 64, 100, 128, 256, 512, 777, 1024, 1500, 2016, 2017} {
+		for _, d := range []int64{-1, 0, 1} {
+			for _, w := range widthsHitting(pp, d) {
+				for bit := uint32(0); bit < 2; bit++ {
+					k.ops = append(k.ops, opEncBit(uint16(pp), 0xFFFFFF00, w, 7, 2, bit))
+					k.ops = append(k.ops, opEncBit(uint16(pp), uint64(rng.Uint64()&0xFFFFFFFF), w, uint8(rng.Uint64()), 0, bit))
+				}
+			}
+		}
+	}
 	ks = append(ks, k)
 
 	k = &kase{kind: "fn", name: "decodeBit", model: true}
+	for _, pp := range []uint32{31, 32, 64, 100, 128, 256, 512, 777, 1024, 1500, 2016, 2017} {
+		for _, d := range []int64{-1, 0, 1} {
+			for _, w := range widthsHitting(pp, d) {
+				th := (w >> 11) * pp
+				for _, b := range []uint32{0, th - 1, th, th + 1, w - 1} {
+					k.ops = append(k.ops, opDecBit(uint16(pp), b, w, []byte{0xA5}))
+					k.ops = append(k.ops, opDecBit(uint16(pp), b, w, nil))
+				}
+			}
+		}
+	}
 	for i := 0; i < n; i++ {
 		p := uint16(31 + rng.Intn(2017-31+1))
 		if rng.Chance(1, 8) {
@@ -432,6 +454,31 @@ func fnCases(rng *hlib.Rand, n int) []*kase {
 	}
 	ks = append(ks, k)
 	return ks
+}
+
+// widthsHitting returns widths w >= 2^24 such that, with probability p, the width after a 0 bit
+// ((w>>11)*p) respectively after a 1 bit (w - (w>>11)*p) is exactly 2^24 + d: the boundary of the
+// `width < (1 << 24)` normalisation test in encodeBit / decodeBit.
+func widthsHitting(p uint32, d int64) []uint32 {
+	var out []uint32
+	target := int64(1<<24) + d
+	// 0 bit: q*p == target
+	if target%int64(p) == 0 {
+		q := target / int64(p)
+		if q >= 1<<13 && q < 1<<21 {
+			out = append(out, uint32(q<<11), uint32(q<<11)+2047)
+		}
+	}
+	// 1 bit: q*(2048-p) + r == target, 0 <= r < 2048
+	c := int64(2048 - p)
+	q := target / c
+	for ; q >= 1<<13 && q >= target/c-2; q-- {
+		r := target - q*c
+		if r >= 0 && r < 2048 && q < 1<<21 {
+			out = append(out, uint32(q<<11)+uint32(r))
+		}
+	}
+	return out
 }
 
 // traceCase: the real encoder state after every byte of a payload, each fed to shiftLow and encodeBit.
@@ -575,6 +622,12 @@ func genCases(r *hlib.Run) []*kase {
 
 	// round 2: stream ends inside a pending 0xFF run; uvarint thresholds of the XZ index
 	genRound2(r, add, addLight)
+
+	// 64 KiB chunks whose LZMA form is 65531 .. 65538 bytes long: around the raw-vs-LZMA decision AND around
+	// the largest packed size the 16-bit chunk-header field can hold (len(rawLZMA) - 1 = 0xFFFF)
+	for _, want := range []int{-2, 2, 3, 4, 5} {
+		add("margin:64k", marginPayload(rng, 65536, want), true, false)
+	}
 
 	// carry chains
 	best := chainStats{}
